@@ -138,6 +138,25 @@ def rules(ctx):
                   "xenium/seqlock.hpp")
     if n_rec < 3:
         ctx.broken.append("seqlock record layouts not found (%d)" % n_rec)
+    # a write operation takes effect on every path: store()/update() never return without acquire_lock -> store_data -> release_lock
+    for leaf in ("store", "update"):
+        for fn in flow._shapes(ctx, S + leaf):
+            must = [flow.find(fn, call("acquire_lock")), flow.find(fn, call("store_data")), flow.find(fn, call("release_lock"))]
+            exits = [b for b in fn.live_blocks() if not [s_ for s_ in fn.blocks[b]["succ"] if s_ is not None]]
+            skip = None
+            for evs, what in zip(must, ("acquire_lock", "store_data", "release_lock")):
+                blocks = {fn.pos()[e][0] for e in evs if e in fn.pos()}
+                for xb in exits:
+                    pth = flow._path(fn, fn.entry, xb, set(), blocks)
+                    if pth is not None and xb not in blocks:
+                        skip = (what, pth)
+                        break
+                if skip:
+                    break
+            ctx.check(skip is None, "SL.protocol", S + leaf + "#takes-effect-on-every-path", "every path through %s() passes acquire_lock, store_data and release_lock" % leaf,
+                      "%s() can return without %s: the write is silently dropped (a store that is elided because another write is pending is lost when that writer is "
+                      "an update() that has already read the old value; with several slots a later load returns the older value)" % (leaf, skip[0] if skip else ""),
+                      fn.where(), fn=fn, path=flow.describe_path(fn, skip[1]) if skip else None)
     # slot index agreement by finite evaluation of the index expressions
     rid = "SL.slot-index"
     ctx.rule(rid, "writer and reader slot indices agree: a writer holding odd sequence s writes slot ((s>>1)+1)%slots, a reader of "
